@@ -803,7 +803,7 @@ def _grid(thorough: bool):
           _dt.datetime(1000, 1, 1, 12, 0, 0, 1), _dt.datetime(9999, 12, 31, 11, 59, 0, 990000), _dt.datetime(1969, 7, 20, 20, 17, 40, 7),
           _dt.datetime(2024, 12, 30, 1, 1, 1, 100), _dt.datetime(2023, 1, 1, 12, 30, 30, 500000), _dt.datetime(2011, 11, 11, 11, 11, 11, 111111),
           _dt.datetime(2022, 10, 22, 22, 2, 20, 20), _dt.datetime(2020, 6, 13, 9, 9, 9, 90909), _dt.datetime(1970, 1, 1, 0, 0, 0, 0),
-          _dt.datetime(2038, 1, 19, 3, 14, 8, 1000), _dt.datetime(2019, 8, 21, 13, 0, 0, 999), _dt.datetime(2024, 12, 31, 0, 30, 0, 10)]
+          _dt.datetime(2038, 1, 19, 3, 14, 8, 1000), _dt.datetime(2019, 8, 21, 13, 0, 0, 999), _dt.datetime(2024, 12, 31, 0, 30, 0, 10), _dt.datetime(1969, 12, 31, 23, 59, 58, 500000)]
     ws += [_dt.datetime(2021, 8, 2 + i, (5 * i) % 24, 7 * i, 8 * i, 1001 * i) for i in range(7)]
     if thorough:
         ws += [_dt.datetime(1000 + 37 * i, 1 + i % 12, 1 + (5 * i) % 28, i % 24, (7 * i) % 60, (11 * i) % 60, (100003 * i) % 1000000) for i in range(1, 240)]
